@@ -16,7 +16,8 @@ STD_DENY = ('std::random_device', 'std::rand', 'std::srand', 'std::chrono::', 's
             'std::shuffle', 'std::random_shuffle', 'std::system', 'std::signal', 'std::atexit')
 C_ALLOW = ('strtol', 'strtoll', 'strtoul', 'strlen', 'memcpy', 'memset', 'memmove', 'memcmp', 'malloc', 'realloc', 'free', 'calloc', 'fread', 'getc', 'ferror',
            'clearerr', 'fprintf', 'exit', 'fwrite', 'fileno', 'isatty', 'atoi', 'abs', '__errno_location', 'strcmp', 'strncmp', 'strchr', 'putc', 'fputc', 'fputs',
-           'isalnum', 'isalpha', 'isdigit', 'isspace', 'isupper', 'islower', 'toupper', 'tolower', 'isxdigit', 'ispunct', 'abort', 'operator new', 'operator delete', 'operator new[]', 'operator delete[]', '__builtin_expect', '__builtin_unreachable', 'snprintf', 'sprintf')
+           'isalnum', 'isalpha', 'isdigit', 'isspace', 'isupper', 'islower', 'toupper', 'tolower', 'isxdigit', 'ispunct', 'abort', 'operator new', 'operator delete', 'operator new[]', 'operator delete[]', '__builtin_expect', '__builtin_unreachable', 'snprintf', 'sprintf',
+           '__assert_fail')      # what assert() expands to: prints and aborts, no state survives it
 C_DENY = ('rand', 'srand', 'time', 'clock', 'getenv', 'setlocale', 'strtok', 'localtime', 'gmtime', 'asctime', 'tmpnam', 'random', 'srandom', 'drand48', 'gettimeofday',
           'clock_gettime', 'getpid', 'system', 'signal', 'setjmp', 'longjmp', 'putenv', 'setenv', 'ctime', 'mktemp', 'tmpfile', 'readdir')
 
@@ -102,6 +103,9 @@ def c18(rep, tier):
                 P3.ok(inst, 'reentrant / pure C function (%d site(s))' % len(sites), where)
             elif f['file'].endswith('lex.yy.c') and bare.startswith('yy'):
                 P3.ok(inst, 'flex runtime', where, nontrivial=False)
+            elif '/include/c++/' in (e.get('callee_file') or '') and not [d for d in STD_DENY if d.split('::')[-1] == bare]:
+                # a member of a standard class named through a typedef (iterator::operator+): defined in the C++ library headers
+                P3.ok(inst, 'standard library (declared in %s), value semantics (%d site(s))' % (os.path.basename(e['callee_file']), len(sites)), where, nontrivial=False)
             else:
                 P3.unknown(inst, 'external function not on the allow or deny list (first call in %s)' % f['q'], where)
     # errno is per-thread state that survives a call: a test of it is history dependent unless this function cleared it first
